@@ -366,14 +366,28 @@ func checkC10(cx *Ctx, r *Report) {
 			n := 0
 			for i := range aps {
 				p := &aps[i]
-				isNil, _ := fx.errNilness(p, fx.retVal(p, res.Len()-1))
+				erv := fx.retVal(p, res.Len()-1)
+				isNil, nonNil := fx.errNilness(p, erv)
+				atoms := p.Atoms
 				if !isNil {
-					continue
+					// the verdict of a module helper handed on (`return signingKeyPair(record)`): success here is success
+					// there - what holds on all of the helper's successful returns holds
+					ex, isE := erv.(*ssa.Extract)
+					if nonNil || !isE {
+						continue
+					}
+					hc, isC := ex.Tuple.(*ssa.Call)
+					if !isC || calleeOf(hc) == nil || calleeOf(hc).Blocks == nil {
+						continue
+					}
+					na := Atom{Op: "NIL", A: fx.path(erv), Val: erv}
+					na.TA = fx.T(na.A)
+					atoms = append(append([]Atom{}, atoms...), fx.expandAtoms([]Atom{na})...)
 				}
 				n++
 				rec := false
 				keyOK, certOK := false, false
-				for _, a := range p.Atoms {
+				for _, a := range atoms {
 					if a.Op == "NIL" && a.Neg {
 						switch {
 						case strings.HasSuffix(a.A, g.method+"#0"):
